@@ -3,7 +3,7 @@
 use crate::sx::{Rng, Sx};
 use crate::{Opts, Out};
 use regex::Regex;
-use rsbdd::bdd::BDD;
+use rsbdd::bdd::{BDDEnv, BDD};
 use rsbdd::parser::*;
 use rsbdd::NamedSymbol;
 use std::io::BufReader;
@@ -280,6 +280,21 @@ pub fn replay(op: &str, args: &Sx) -> String {
         },
         ("parse", 1) => match sx_text(&a[0]) {
             Some(t) => real_parse(t.as_bytes()),
+            _ => "(harness-error decode)".into(),
+        },
+        ("sym", 4) => {
+            let nm = |x: &Sx| -> Option<String> { x.list()?.iter().map(|c| char::from_u32(c.atom()?.parse().ok()?)).collect() };
+            match (a[0].atom().and_then(|s| s.parse().ok()), nm(&a[1]), a[2].atom().and_then(|s| s.parse().ok()), nm(&a[3])) {
+                (Some(i1), Some(n1), Some(i2), Some(n2)) => real_sym(i1, &n1, i2, &n2),
+                _ => "(harness-error decode)".into(),
+            }
+        }
+        ("evalx", 2) => match (sx_text(&a[0]), sx_text(&a[1])) {
+            (Some(t1), Some(t2)) => real_evalx(t1.as_bytes(), t2.as_bytes()),
+            _ => "(harness-error decode)".into(),
+        },
+        ("evalid", 3) => match (sx_ordering_id(&a[0]), sx_text(&a[1]), a[2].atom()) {
+            (Some(o), Some(t), Some(m)) => real_evalid(t.as_bytes(), &o, m),
             _ => "(harness-error decode)".into(),
         },
         ("eval", 2) => match (sx_ordering(&a[0]), sx_text(&a[1])) {
@@ -1076,10 +1091,402 @@ pub fn part_evalq(out: &mut Out, _o: &Opts) {
     }
 }
 
+/// systematic shadowing: an outer binder on `a`, an inner binder on the same name that is closed again
+/// (by a bracket, a list comma, an if-branch), and uses of `a` before / after / outside; every body is
+/// positive in `a`, so the fixed-point variants converge
+pub fn shadow_formulas() -> Vec<String> {
+    let outers = ["exists a #", "forall a #", "lfp a #", "gfp a #", "exists b, a #", "forall a, c #", ""];
+    let inners = ["exists a #", "forall a #", "lfp a #", "gfp a #", "exists a, b #", "forall c, a #"];
+    let mut v = vec![];
+    for o in outers {
+        for i in inners {
+            v.push(format!("{o} (({i} a | b) & (a | c))"));
+            v.push(format!("{o} ((a | c) & ({i} a | b))"));
+            v.push(format!("{o} [{i} a & b, a, c] >= 2"));
+            v.push(format!("{o} [a, {i} a & b, c | a] >= [b, {i} a]"));
+            v.push(format!("{o} (if c then ({i} a & b) else a)"));
+            v.push(format!("({o} (({i} a & b) | a)) & a"));
+            v.push(format!("{o} (({i} (({i} a | b) & a)) | (a & c))"));
+            v.push(format!("{o} {i} a | b"));
+        }
+        v.push(format!("{o} (b & c)"));
+        v.push(format!("{o} (exists z # a) | z"));
+    }
+    v
+}
+
+pub fn part_evalshadow(out: &mut Out, _o: &Opts) {
+    for f in shadow_formulas() {
+        emit_eval(out, &f, &[]);
+        emit_eval(out, &f, &[("c".to_string(), 0), ("a".to_string(), 5)]);
+    }
+}
+
+// ------------------------------------------------------------------------------------------------
+// sym: the NamedSymbol contract the model relies on (a variable IS its id; the name is what is printed)
+
+pub fn real_sym(i1: usize, n1: &str, i2: usize, n2: &str) -> String {
+    guard(|| {
+        use std::hash::{Hash, Hasher};
+        let a = NamedSymbol { name: Rc::new(n1.to_string()), id: i1 };
+        let b = NamedSymbol { name: Rc::new(n2.to_string()), id: i2 };
+        let cmp = match a.cmp(&b) {
+            std::cmp::Ordering::Less => "lt",
+            std::cmp::Ordering::Equal => "eq",
+            std::cmp::Ordering::Greater => "gt",
+        };
+        let pcmp = match a.partial_cmp(&b) {
+            Some(std::cmp::Ordering::Less) => "lt",
+            Some(std::cmp::Ordering::Equal) => "eq",
+            Some(std::cmp::Ordering::Greater) => "gt",
+            None => "none",
+        };
+        let h1 = |s: &NamedSymbol| {
+            let mut x = std::collections::hash_map::DefaultHasher::new();
+            s.hash(&mut x);
+            x.finish()
+        };
+        let node = |s: &NamedSymbol| BDD::Choice(Rc::new(BDD::True), s.clone(), Rc::new(BDD::False));
+        // equal symbols hash alike, under the std hasher and under the FxHasher of the unique table
+        let hash_ok = a != b || (h1(&a) == h1(&b) && node(&a).get_hash() == node(&b).get_hash());
+        let node_eq = node(&a) == node(&b);
+        let conv: usize = a.clone().into();
+        format!("(ok {} {} {} {} {} {} {})", (a == b) as u8, cmp, pcmp, hash_ok as u8, node_eq as u8, conv, name_sx(&format!("{a}")).show())
+    })
+}
+
+pub fn part_sym(out: &mut Out, _o: &Opts) {
+    let syms: Vec<(usize, &str)> = [0usize, 1, 2, 7].iter().flat_map(|&i| ["a", "b", "", "é'"].iter().map(move |&n| (i, n))).collect();
+    for &(i1, n1) in &syms {
+        for &(i2, n2) in &syms {
+            let args = Sx::l(vec![Sx::n(i1), name_sx(n1), Sx::n(i2), name_sx(n2)]);
+            out.emit("sym", &args.show(), &real_sym(i1, n1, i2, n2));
+        }
+    }
+}
+
+// ------------------------------------------------------------------------------------------------
+// evalx: two separately parsed formulas (two environments, possibly two spellings of the same ids) combined
+
+pub fn real_evalx(t1: &[u8], t2: &[u8]) -> String {
+    guard(|| {
+        let p1 = ParsedFormula::new(&mut BufReader::new(t1), None);
+        let p2 = ParsedFormula::new(&mut BufReader::new(t2), None);
+        match (p1, p2) {
+            (Ok(p1), Ok(p2)) => {
+                let d1 = p1.eval();
+                let d2 = p2.eval();
+                let e = &p1.env;
+                let rs = [
+                    e.and(d1.clone(), d2.clone()),
+                    e.or(d1.clone(), d2.clone()),
+                    BDDEnv::eq(e, d1.clone(), d2.clone()),
+                    e.xor(d1.clone(), d2.clone()),
+                    e.implies(d1.clone(), d2.clone()),
+                    p2.env.and(d2.clone(), d1.clone()),
+                    p2.env.ite(d2.clone(), d1.clone(), p2.env.not(d1.clone())),
+                ];
+                let mut s = String::from("(ok");
+                for r in rs.iter() {
+                    s.push(' ');
+                    show_named(r, &mut s);
+                }
+                s.push(')');
+                s
+            }
+            _ => "(err)".into(),
+        }
+    })
+}
+
+fn emit_evalx(out: &mut Out, t1: &str, t2: &str) {
+    let args = Sx::l(vec![text_sx(t1), text_sx(t2)]);
+    out.emit("evalx", &args.show(), &real_evalx(t1.as_bytes(), t2.as_bytes()));
+}
+
+const POOL_A: [&str; 3] = ["p", "q", "x"];
+const POOL_B: [&str; 3] = ["req", "ack", "busy"];
+const POOL_C: [&str; 3] = ["x", "p", "q"];
+
+pub fn part_evalx(out: &mut Out, o: &Opts) {
+    for (a, b) in [("(req & ack) | busy", "(r & a) | b"), ("a & b", "b & a"), ("a & -b", "c & -d"), ("[a, b, c] = 2", "[x, y, z] = 2"), ("a", "b"), ("a ^ b", "-(c <=> d)")] {
+        emit_evalx(out, a, b);
+        emit_evalx(out, b, a);
+    }
+    let mut rng = Rng::new(o.seed ^ 0xe7a1);
+    let n = if o.thorough { 20_000 } else { 1_200 };
+    for k in 0..n {
+        let depth = 1 + rng.below(3) as u32;
+        let s = rng.next();
+        // the same structure under two spellings, or two unrelated formulas over pools that share ids
+        let f1 = rand_formula(&mut Rng::new(s), depth, &POOL_A);
+        let f2 = match k % 3 {
+            0 => rand_formula(&mut Rng::new(s), depth, &POOL_B),
+            1 => rand_formula(&mut Rng::new(s), depth, &POOL_C),
+            _ => rand_formula(&mut rng, depth, &POOL_B),
+        };
+        emit_evalx(out, &f1, &f2);
+    }
+}
+
+// ------------------------------------------------------------------------------------------------
+// evalid: API orderings with arbitrary (huge, sparse) ids, among them ids crafted so that two different
+// sibling sub-diagrams have the same FxHash; both sides work in rank space (ids replaced by their rank)
+
+fn ordering_id_sx(o: &[(String, usize)]) -> Sx {
+    Sx::l(o.iter().map(|(n, i)| Sx::l(vec![name_sx(n), Sx::a(i.to_string())])).collect())
+}
+fn sx_ordering_id(x: &Sx) -> Option<Vec<(String, usize)>> {
+    sx_ordering(x)
+}
+
+fn show_ranked(b: &BDD<NamedSymbol>, rank: &dyn Fn(usize) -> usize, out: &mut String) {
+    match b {
+        BDD::False => out.push('F'),
+        BDD::True => out.push('T'),
+        BDD::Choice(t, v, f) => {
+            out.push_str("(N ");
+            show_ranked(t, rank, out);
+            out.push(' ');
+            out.push_str(&rank(v.id).to_string());
+            out.push(' ');
+            show_ranked(f, rank, out);
+            out.push(')');
+        }
+    }
+}
+fn show_ranked_usize(b: &BDD<usize>, rank: &dyn Fn(usize) -> usize, out: &mut String) {
+    match b {
+        BDD::False => out.push('F'),
+        BDD::True => out.push('T'),
+        BDD::Choice(t, v, f) => {
+            out.push_str("(N ");
+            show_ranked_usize(t, rank, out);
+            out.push(' ');
+            out.push_str(&rank(*v).to_string());
+            out.push(' ');
+            show_ranked_usize(f, rank, out);
+            out.push(')');
+        }
+    }
+}
+
+/// mode "d": the diagram as evaluated; mode "c": after the public conversion BDD<NamedSymbol> -> BDD<usize>
+pub fn real_evalid(bytes: &[u8], ord: &[(String, usize)], mode: &str) -> String {
+    guard(|| {
+        let mut rd = BufReader::new(bytes);
+        match ParsedFormula::new(&mut rd, to_symbols(ord)) {
+            Err(_) => "(err)".into(),
+            Ok(p) => {
+                let b = p.eval();
+                let mut all: Vec<usize> = ord.iter().map(|(_, i)| *i).chain(p.vars.iter().map(|v| v.id)).collect();
+                all.sort();
+                all.dedup();
+                let rank = |i: usize| all.binary_search(&i).unwrap_or(usize::MAX);
+                let mut s = String::from("(ok ");
+                if mode == "c" {
+                    let c: BDD<usize> = BDD::from(b.as_ref().clone());
+                    show_ranked_usize(&c, &rank, &mut s);
+                } else {
+                    show_ranked(&b, &rank, &mut s);
+                }
+                let rk = |v: &[NamedSymbol]| format!("({})", v.iter().map(|x| rank(x.id).to_string()).collect::<Vec<_>>().join(" "));
+                s.push(' ');
+                s.push_str(&rk(&p.vars));
+                s.push(' ');
+                s.push_str(&rk(&p.free_vars));
+                s.push_str(" (");
+                s.push_str(&p.vars.iter().map(|v| name_sx(&v.name).show()).collect::<Vec<_>>().join(" "));
+                s.push_str("))");
+                s
+            }
+        }
+    })
+}
+
+fn emit_evalid(out: &mut Out, text: &str, ord: &[(String, usize)]) {
+    for mode in ["d", "c"] {
+        let args = Sx::l(vec![ordering_id_sx(ord), text_sx(text), Sx::a(mode)]);
+        out.emit("evalid", &args.show(), &real_evalid(text.as_bytes(), ord, mode));
+    }
+}
+
+/// records the words a value feeds to its hasher
+struct Recorder {
+    words: Vec<u64>,
+    bytes: bool,
+}
+impl std::hash::Hasher for Recorder {
+    fn finish(&self) -> u64 {
+        0
+    }
+    fn write(&mut self, _b: &[u8]) {
+        self.bytes = true;
+    }
+    fn write_u8(&mut self, i: u8) {
+        self.words.push(i as u64)
+    }
+    fn write_u16(&mut self, i: u16) {
+        self.words.push(i as u64)
+    }
+    fn write_u32(&mut self, i: u32) {
+        self.words.push(i as u64)
+    }
+    fn write_u64(&mut self, i: u64) {
+        self.words.push(i)
+    }
+    fn write_usize(&mut self, i: usize) {
+        self.words.push(i as u64)
+    }
+    fn write_isize(&mut self, i: isize) {
+        self.words.push(i as usize as u64)
+    }
+}
+const FX_K: u64 = 0x51_7c_c1_b7_27_22_0a_95;
+fn fx_run(words: &[u64]) -> u64 {
+    words.iter().fold(0u64, |h, w| (h.rotate_left(5) ^ w).wrapping_mul(FX_K))
+}
+fn record(b: &BDD<NamedSymbol>) -> Option<Vec<u64>> {
+    use std::hash::Hash;
+    let mut r = Recorder { words: vec![], bytes: false };
+    b.hash(&mut r);
+    // only usable when this replica of the hasher agrees with the real one
+    if r.bytes || fx_run(&r.words) != b.get_hash() {
+        None
+    } else {
+        Some(r.words)
+    }
+}
+fn find_pivot(b: &Rc<BDD<NamedSymbol>>, pivot: &str) -> Option<(Rc<BDD<NamedSymbol>>, Rc<BDD<NamedSymbol>>)> {
+    match b.as_ref() {
+        BDD::Choice(t, v, f) => {
+            if v.name.as_str() == pivot {
+                Some((t.clone(), f.clone()))
+            } else {
+                find_pivot(t, pivot).or_else(|| find_pivot(f, pivot))
+            }
+        }
+        _ => None,
+    }
+}
+
+/// an ordering (names ascending as listed) in which the id of `target` makes the two children of the node
+/// testing `pivot` different diagrams with the same FxHash
+fn craft(text: &str, names: &[&str], target: &str, pivot: &str, salt: u64) -> Option<Vec<(String, usize)>> {
+    let tpos = names.iter().position(|n| *n == target)?;
+    let placeholder = (1usize << 40) + 12345;
+    let mk = |tid: usize| -> Vec<(String, usize)> {
+        names
+            .iter()
+            .enumerate()
+            .map(|(i, n)| {
+                let id = if i < tpos { i * (1 + salt as usize % 5) + (salt as usize % 3) } else if i == tpos { tid } else { usize::MAX - 40 + i };
+                (n.to_string(), id)
+            })
+            .collect()
+    };
+    let eval = |o: &[(String, usize)]| -> Option<Rc<BDD<NamedSymbol>>> {
+        let p = ParsedFormula::new(&mut BufReader::new(text.as_bytes()), to_symbols(o)).ok()?;
+        Some(p.eval())
+    };
+    let o0 = mk(placeholder);
+    let (t, f) = find_pivot(&eval(&o0)?, pivot)?;
+    let (wt, wf) = (record(&t)?, record(&f)?);
+    if wt.len() != wf.len() {
+        return None;
+    }
+    let k = (0..wt.len()).rev().find(|&i| wt[i] != wf[i])?;
+    // the last word in which the two streams differ must be the target id, on exactly one side
+    let (wa, wb) = if wf[k] == placeholder as u64 && wt[k] != placeholder as u64 { (&wt, &wf) } else if wt[k] == placeholder as u64 { (&wf, &wt) } else { return None };
+    if wb.iter().filter(|w| **w == placeholder as u64).count() != 1 {
+        return None;
+    }
+    let sa = fx_run(&wa[..k]);
+    let sb = fx_run(&wb[..k]);
+    let tid = (sa.rotate_left(5) ^ wa[k] ^ sb.rotate_left(5)) as usize;
+    let o1 = mk(tid);
+    // ids must still be strictly increasing in listing order
+    if !o1.windows(2).all(|w| w[0].1 < w[1].1) {
+        return None;
+    }
+    // the collision is confirmed on the recorded words (the replica was checked against get_hash above), not by
+    // re-evaluating: an implementation that confuses the two diagrams would not build the pivot node at all
+    let wb2: Vec<u64> = wb.iter().map(|w| if *w == placeholder as u64 { tid as u64 } else { *w }).collect();
+    if wa != &wb2 && fx_run(wa) == fx_run(&wb2) {
+        Some(o1)
+    } else {
+        None
+    }
+}
+
+pub fn part_evalid(out: &mut Out, o: &Opts) {
+    // (formula, names in ascending id order, name whose id is solved for, name tested by the parent of the colliding pair)
+    let templates: [(&str, &[&str], &str, &str); 8] = [
+        ("if s then (a | b) else (c | d)", &["s", "a", "c", "b", "d"], "d", "s"),
+        ("if s then (a & b) else (c & d)", &["s", "a", "c", "b", "d"], "d", "s"),
+        ("(s & (x | y)) | (-s & -z & y)", &["s", "x", "z", "y"], "z", "s"),
+        ("if s then (a | b | e) else (c | d | e)", &["s", "a", "c", "b", "d", "e"], "d", "s"),
+        ("u | (if s then (a | b) else (c | d))", &["u", "s", "a", "c", "b", "d"], "d", "s"),
+        ("(u & s & (a => b)) | (u & -s & (c => d)) | (-u & b)", &["u", "s", "a", "c", "b", "d"], "d", "s"),
+        ("exists w # (w & s & (a | b)) | (-w & -s & (c | d))", &["w", "s", "a", "c", "b", "d"], "d", "s"),
+        ("[s, a & b, c & d] >= 2", &["s", "a", "c", "b", "d"], "d", "s"),
+    ];
+    let mut crafted = 0;
+    for (text, names, target, pivot) in templates {
+        for salt in 0..6u64 {
+            if let Some(ord) = craft(text, names, target, pivot, salt) {
+                crafted += 1;
+                emit_evalid(out, text, &ord);
+                // the same diagram inside larger formulas
+                emit_evalid(out, &format!("({text}) & ({text})"), &ord);
+                emit_evalid(out, &format!("-({text})"), &ord);
+            }
+        }
+    }
+    eprintln!("evalid: {crafted} crafted hash-collision orderings");
+    // arbitrary sparse ids up to the top of the range
+    let mut rng = Rng::new(o.seed ^ 0x1d1d);
+    let n = if o.thorough { 20_000 } else { 1_000 };
+    let pool = ["a", "b", "c", "x", "y'", "_z", "unused1", "unused2"];
+    for _ in 0..n {
+        let depth = 1 + rng.below(3) as u32;
+        let f = rand_formula(&mut rng, depth, &NAMES6);
+        let mut ids: Vec<usize> = vec![];
+        let mut ord = vec![];
+        let mut listed: Vec<&str> = pool.to_vec();
+        // random listing order
+        for i in (1..listed.len()).rev() {
+            let j = rng.below(i as u64 + 1) as usize;
+            listed.swap(i, j);
+        }
+        for n in listed {
+            let id = match rng.below(4) {
+                0 => rng.below(10) as usize,
+                1 => usize::MAX - 1 - rng.below(10) as usize,
+                2 => (rng.next() >> rng.below(60)) as usize,
+                _ => (1usize << (rng.below(63) as u32)) + rng.below(3) as usize,
+            };
+            if id == usize::MAX || ids.contains(&id) {
+                continue;
+            }
+            ids.push(id);
+            ord.push((n.to_string(), id));
+        }
+        // every name of the formula must be listed (an unlisted one would get max id + 1)
+        if NAMES6.iter().all(|n| ord.iter().any(|(m, _)| m == n)) {
+            emit_evalid(out, &f, &ord);
+        }
+    }
+}
+
 pub fn main(out: &mut Out, o: &Opts) {
     for p in o.parts.clone() {
         match p.as_str() {
             "evalq" => part_evalq(out, o),
+            "sym" => part_sym(out, o),
+            "evalx" => part_evalx(out, o),
+            "evalid" => part_evalid(out, o),
+            "evalshadow" => part_evalshadow(out, o),
             "evalwide" => part_evalwide(out, o),
             "evalord" => part_evalord(out, o),
             "tok" => part_tok(out, o),
